@@ -10,7 +10,7 @@ ROOT = os.path.dirname(os.path.dirname(os.path.abspath(__file__)))
 # property id -> (category, technique, level text, level note, design ref)
 CHECKS = {
     "C19": ("exploration",
-            "bounded exhaustive enumeration of point-cloud pairs and segment pairs on the real backend vs brute-force oracle",
+            "bounded exhaustive enumeration of point-cloud pairs and segment pairs on the real backend vs brute-force oracle; a third of the runs repeated on a backend instance that answered another request before",
             "Every pair of point clouds with <=3 (thorough: <=4) points on the {0,1,2}^2 lattice (duplicates, collinear, coincident), "
             "x radii x tolerance menu x velocity tables is run through the real _ConnectionsBackend.run and every reported connection "
             "is checked against a brute-force oracle (mutual nearest within radius, delta-v of reported states, limit, label, order, "
@@ -38,7 +38,7 @@ CHECKS = {
             "py_func is the same source numba compiles; native-code interleavings are covered by the conflict-freedom argument, not enumerated; integer-valued inputs make float sums exact.",
             "DESIGN.md C06"),
     "C02": ("exploration",
-            "complete enumeration of rooted trees (Butcher order conditions) on the library's own coefficient arrays + one-step conformance of every stepping kernel + step/tolerance ladders on a right-hand-side menu with closed-form solutions",
+            "complete enumeration of rooted trees (Butcher order conditions) on the library's own coefficient arrays + one-step conformance of every stepping kernel + step/tolerance ladders on a right-hand-side menu with closed-form solutions; one integrator instance reused over every ordered pair of problems (A, B, A)",
             "The tableau half is decided completely: every rooted tree up to the declared order (8/37/200 trees for orders 4/6/8, 17 for RK45, 200 for DOP853), the embedded error weights (RK45 E, DOP853 E3/E5) "
             "and the RK45 dense-output polynomial are checked coefficient-wise. The stepping-code half: each kernel (generic, Hamiltonian twin, centre-manifold copy) is compared after one step with a textbook step "
             "from the same table on 5 right-hand sides x 3 step sizes (also negative), and global-error ladders (4-5 rungs) on autonomous, non-autonomous, nonlinear coupled and Hamiltonian problems must show the declared exponent; "
@@ -46,7 +46,7 @@ CHECKS = {
             "Exponent threshold p-0.75 on the overall ladder slope; reference solutions are closed forms / mpmath elliptic functions / scipy DOP853 at 1e-13; continuous ranges of step sizes and tolerances are covered on the stated ladders only.",
             "DESIGN.md C02"),
     "C01": ("exploration",
-            "exhaustive state lattice (mu x base points x 3^6 offsets) on the real field/Jacobian/variational/energy functions vs a 30-digit mpmath reference and its numerically differentiated Jacobian; Lie-derivative oracle for every energy observable; energy constancy along propagated trajectories",
+            "exhaustive state lattice (mu x base points x 3^6 offsets) on the real field/Jacobian/variational/energy functions vs a 30-digit mpmath reference and its numerically differentiated Jacobian; Lie-derivative oracle for every energy observable; energy constancy along propagated trajectories; operation histories (create system A, create B, use A, create A again, use B; all ordered pairs of mass ratios) each in a newly forked process",
             "For every lattice state the library's vector field, all 36 Jacobian entries and both blocks of the 42-D variational right-hand side (Phi = I and a dense non-symmetric Phi) are compared with a reference written in the harness "
             "(the Jacobian reference is obtained by differentiating the reference field, not by re-typing formulas). Every energy-like observable (crtbp_energy, effective_potential+kinetic_energy, energy_to_jacobi, the second Jacobi formula inside "
             "_max_rel_energy_error, orbit/libration-point energy and jacobi) must have zero Lie derivative along the library's field at spatial states, and stay constant along System.propagate for fixed 4/6/8 and adaptive 5/8.",
@@ -61,7 +61,7 @@ CHECKS = {
             "accepted_count counts the seed; give-up after max_retries+1 consecutive failures; initial step inside [step_min, step_max]; end-to-end orbit families are covered by C05's periodicity oracle only for single corrections.",
             "DESIGN.md C13"),
     "C05": ("fault_enumeration",
-            "exhaustive enumeration of solver configurations on harness-owned residual maps with all evaluations logged, plus exceptions injected at every 1- and 2-subset of the first 12 residual evaluations; orbit families x points x mass ratios x amplitudes with independent closure propagation",
+            "exhaustive enumeration of solver configurations on harness-owned residual maps with all evaluations logged, plus exceptions injected at every 1- and 2-subset of the first 12 residual evaluations; orbit families x points x mass ratios x amplitudes with independent closure propagation; solver statements on reused backend instances / stepper factories; orbit objects corrected twice (loose, then tight)",
             "Solver contract: 12 residual maps (well/ill conditioned, two roots, singular start, no root, rectangular, NaN half-space) x start lattice x tol x max_attempts x max_delta x plain/Armijo x analytic/FD Jacobian are all run through the real "
             "_NewtonBackend.run; on every execution 'returned => |R(x)|<tol recomputed independently', monotone residual norms and the step cap on every notified iterate, and reported iterations are checked; faults (exceptions) are injected at every "
             "placement of 1 (thorough: 2) among the first 12 evaluations. Orbit half: each corrected halo N/S, planar Lyapunov and vertical orbit at L1/L2 (EM, mu=0.04; thorough adds Sun-Earth and denser amplitude/tolerance ladders) is re-propagated "
@@ -69,14 +69,14 @@ CHECKS = {
             "A raise of any exception type is accepted as 'raises an error'; closure bound 1e-6 (observed <= 2e-9 on correct families); known finding F15 (vertical family) is listed in known_findings.json.",
             "DESIGN.md C05"),
     "C16": ("exploration",
-            "exhaustive lattice (Hamiltonian menu x states x step sizes x orders x coupling constants) on the real one-step kernel: finite-difference Jacobian symplecticity, step/unstep reversibility, fixed-omega convergence ladders, long-run energy, recorded sub-step sequence",
+            "exhaustive lattice (Hamiltonian menu x states x step sizes x orders x coupling constants) on the real one-step kernel: finite-difference Jacobian symplecticity, step/unstep reversibility, fixed-omega convergence ladders, long-run energy, recorded sub-step sequence; multi-step kernel over there-and-back grids; long-run energy by quarters at three step sizes",
             "For 8 polynomial Hamiltonians (separable and non-separable, degree <= 6) x 3 generic extended states x h in {0.01,-0.05,0.2} (thorough: +-0.01,+-0.05,+-0.2) x orders 2,4,6,8 x omega {0.5,50} (thorough 0.5,5,50) the 12x12 Jacobian of _recursive_update_poly "
             "is obtained by Richardson central differences and M^T Omega M = Omega is checked for the documented two-form dQ^dP + dX^dY; step(h) then step(-h) must restore the state; with omega fixed the error ladder against a scipy reference must show the declared order; "
             "8000-20000 steps through the public class must keep the energy error bounded; the executed sub-step sequence is recorded by running the kernel's python source with the three sub-flows replaced by recorders (palindrome, weights sum to 1, triple-jump cancellation condition).",
             "Known finding F3 (orders 4/6/8 converge with exponent 2: wrong triple-jump exponent) is listed in known_findings.json - the one-line repair breaks the pinned test test_symplectic::test_final_state_error, so it is recorded rather than repaired.",
             "DESIGN.md C16"),
     "C17": ("exploration",
-            "differential exploration of program variants: Hamiltonian fast path vs generic path generated by the harness from exact derivatives, all (integrator, event, direction, grid) variants x Hamiltonian menu x states; right-hand sides on a state lattice vs exact derivatives",
+            "differential exploration of program variants: Hamiltonian fast path vs generic path generated by the harness from exact derivatives, all (integrator, event, direction, grid) variants x Hamiltonian menu x states; right-hand sides on a state lattice vs exact derivatives; construction histories (ordered pairs of Hamiltonians in one process, coefficient list overwritten in place); the two symplectic kernels on uniform/graded/jagged grids",
             "hamsys.rhs, _hamiltonian_rhs and dH_dQ/dH_dP are compared with exact derivatives of the polynomial (dict-of-monomials reference) on a 15-point lattice for 8 Hamiltonians; then every program variant {fixed 4,6,8; RK45; DOP853} x {no event, 2 event functions x direction -1,0,+1} x {dense grid, endpoints} "
             "is executed on the fast path and on a generic system whose vector field source is generated by the harness (compiled by the library's own create_rhs_system): states, returned derivatives, event times and event states must agree to 1e-11/1e-9.",
             "Both paths use the library's integrator code (the oracle is their agreement plus C02's absolute accuracy checks); quick tier uses 3 Hamiltonians, thorough all 8.",
@@ -96,50 +96,50 @@ CHECKS = {
             "Sub-step double crossings and tangencies are outside sign-change detection and excluded; an exact zero at a step end in the filtered-out direction is don't-care; error budget uses the driver's own measured global error.",
             "DESIGN.md C11"),
     "C04": ("exploration",
-            "exhaustive sweep catalogue pairs + mu ladder x L1..L5 against an mpmath reference (equilibrium residual, quintic, eigenvalues of the numerically differentiated Jacobian, symplecticity / H2 reduction of the normal-form matrix, Taylor coefficients c_n)",
+            "exhaustive sweep catalogue pairs + mu ladder x L1..L5 against an mpmath reference (equilibrium residual, quintic, eigenvalues of the numerically differentiated Jacobian, symplecticity / H2 reduction of the normal-form matrix, Taylor coefficients c_n); access histories (two systems in both creation orders x point visiting orders) in newly forked processes",
             "All 18 catalogue pairs (enumerated from Constants.orbital_distances at run time; the property text says 19, the tree has 18) and a log ladder of 24 (thorough 40) mass ratios from 2e-9 to 0.5 plus Routh +- and special values, for all five points: the point is returned, is an equilibrium of the reference field, "
             "gamma matches the distance to its primary and the equilibrium condition, lambda/omegas equal the eigenvalues of the reference Jacobian (40-digit central differences + mpmath eig), C^T J C = J, C^T Hess(H2) C has the normal-form pattern, c_2..c_8 equal the Taylor coefficients of the primaries' potential.",
             "L4/L5 above Routh may reject; orientation of the local axis for odd c_n is pinned by C07, not here; tolerances 1e-7 relative on modes.",
             "DESIGN.md C04"),
     "C07": ("exploration",
-            "exhaustive lattice mu x {L1..L5} x degree x 76 phase-space directions with radius ladders: exponent of the energy mismatch and of the pushed-forward vector-field mismatch measured on the real polynomial Hamiltonian and the library's own local->synodic map against a reference CR3BP energy/field",
+            "exhaustive lattice mu x {L1..L5} x degree x 76 phase-space directions with radius ladders: exponent of the energy mismatch and of the pushed-forward vector-field mismatch measured on the real polynomial Hamiltonian and the library's own local->synodic map against a reference CR3BP energy/field; build histories in newly forked processes in which every ordered pair of (point, degree) expansions occurs adjacently",
             "For each mass ratio, point (collinear and triangular expansions) and degree N the polynomial built by _build_physical_hamiltonian_* is evaluated along 12 axes + 64 weighted corner directions on a 5-rung radius ladder: (E(S(z))-E(S(0)))/gamma^2 - H_N(z) must shrink like r^(N+1) and J grad H_N pushed forward by dS "
             "must match the reference CR3BP field at S(z) like r^N; the local origin must map to the point at rest and synodic2local(local2synodic(z)) = z. Exponents (not constants) are the oracle, so a wrong sign, frame, coefficient c_n or scaling shows as exponent 1-2.",
             "radius 0.35 in local units; exponent = median of the last pairwise ratios above the rounding floor, threshold declared-0.75; quick tier degrees {2,3,4,6,8} and 3 mass ratios, thorough 2..10 and 5.",
             "DESIGN.md C07"),
     "C08": ("exploration",
-            "exhaustive examination of every monomial of degree 3..N of the normalised Hamiltonians (term structure) and radius ladders on a direction lattice for the three exponent statements (conjugacy, canonicity, inverse), on the pipeline and on one-monomial-at-a-time synthetic programs fed to the real Lie routines",
+            "exhaustive examination of every monomial of degree 3..N of the normalised Hamiltonians (term structure) and radius ladders on a direction lattice for the three exponent statements (conjugacy, canonicity, inverse), on the pipeline and on one-monomial-at-a-time synthetic programs fed to the real Lie routines; every sequence of <= 3 requests {partial NF, full NF, forward/inverse expansions, CM Hamiltonian} on one pipeline followed by all checks",
             "For mu x {L1,L2} x N the partial normal form must have no monomial with k_q1 != k_p1 and the full normal form only exponent-balanced monomials (all coefficients examined, threshold 1e-11 of the largest coefficient of that degree); H_new(z) - H_old(Phi(z)), DPhi^T J DPhi - J and Phi^-1(Phi(z)) - z are "
             "evaluated along 22 complex/real directions on a 5-rung radius ladder with the library's own series and must shrink like r^(N+1), r^N, r^(N+1). Synthetic programs: the true quadratic part plus each of the 56 cubic monomials (thorough: + 126 quartic) alone, through _lie_transform (partial and full) and _lie_expansion.",
             "r0 = 0.08 in modal coordinates; exponent = median of the last pairwise ratios, threshold declared-0.75 (measured margins -0.07..0); resonant mass ratios are outside the alphabet.",
             "DESIGN.md C08"),
     "C09": ("exploration",
-            "exhaustive direction lattice ({-1,0,1}^4 minus 0) x radius ladder through the real CenterManifold.to_synodic / to_cm / hamiltonian, plus 4 section coordinates x plane lattice x energy ladder for the 2-D conversion, against a reference CR3BP energy",
+            "exhaustive direction lattice ({-1,0,1}^4 minus 0) x radius ladder through the real CenterManifold.to_synodic / to_cm / hamiltonian, plus 4 section coordinates x plane lattice x energy ladder for the 2-D conversion, against a reference CR3BP energy; every sequence of <= 3 operations {to_synodic, to_cm, degree changes, 2-D conversion} on one CenterManifold vs a fresh twin; computed section x requested section on one map",
             "For systems x {L1,L2} x N in {4,6} (thorough +8): to_cm(to_synodic(p)) - p and (E(to_synodic(p)) - E_L)/gamma^2 - H_cm(p) along all 80 non-zero directions of {-1,0,1}^4 on a 5-rung ladder must shrink like r^(N+1); 2-D section points (9 per section coordinate) converted at energies h0*4^-k must come back "
             "with the section coordinate, the plane coordinates, H_cm = h and the reference energy all converging at the same order.",
             "get_lie_expansions is memoised per pipeline instance inside the harness (it is a deterministic function recomputed on every conversion); floors scale with |E_L|/gamma^2.",
             "DESIGN.md C09"),
     "C18": ("exploration",
-            "exhaustive enumeration of the conversion registry (read at run time) x points x mass ratios x degrees: every edge executed, both-direction edges composed, direct edge vs pipeline result; every substitution checked point-wise against the coordinate map on pipeline Hamiltonians and on every monomial of degree <= 3 alone + dense fills",
+            "exhaustive enumeration of the conversion registry (read at run time) x points x mass ratios x degrees: every edge executed, both-direction edges composed, direct edge vs pipeline result; every substitution checked point-wise against the coordinate map on pipeline Hamiltonians and on every monomial of degree <= 3 alone + dense fills; all ordered pairs of form requests on one pipeline; both-direction edges on arbitrary polynomials, before and after a custom-tolerance call",
             "All 13 registered edges are executed on the pipeline Hamiltonian of their source form for {L1,L2} x {EM, 9.5e-4} x degree {4,6} (thorough 2..8); the 5 edge pairs registered in both directions must compose to the identity coefficient-wise; _substitute_complex/_substitute_real/_polylocal2realmodal/_polyrealmodal2local "
             "applied to 86+ arbitrary polynomials and the pipeline forms must satisfy new(x) = old(T x) on a real+complex lattice and undo each other; _solve_complex/_solve_real, modal<->local and local<->synodic (collinear and triangular) compose to the identity; _M _M_inv = I.",
             "coefficient round trips compared at 1e-9 relative (conversions clean below 1e-14..1e-12).",
             "DESIGN.md C18"),
     "C03": ("exploration",
-            "exhaustive lattice mu x states x durations x methods x directions through the real _compute_stm, compared entry-wise with (a) Richardson finite differences of the library's own flow and (b) an independent variational reference; symplecticity in the harness-built two-form; periodic orbits' monodromy",
+            "exhaustive lattice mu x states x durations x methods x directions through the real _compute_stm, compared entry-wise with (a) Richardson finite differences of the library's own flow and (b) an independent variational reference; symplecticity in the harness-built two-form; periodic orbits' monodromy; every sequence of <= 3 operations {read monodromy, set period, propagate} on one orbit object",
             "For 3 mass ratios x 3 states (L1 vicinity, mid field, far side) x tf {0.3,1,2.5} x {adaptive 8, adaptive 5, fixed 8} x forward +-1 the returned Phi(tf) must equal the derivative of that same (forward or backward) flow: against 12 perturbed propagations of the library's own _propagate_dynsys (Richardson) "
             "and against scipy DOP853 on harness-side variational equations; Phi^T W Phi = W with W built in the harness from canonical momenta, det = 1, reciprocal eigenvalue pairs; for corrected halo N/S and Lyapunov orbits at L1/L2: monodromy vs reference, M f(x0) = f(x0), stability indices vs reference pairs.",
             "arcs that approach a primary closer than max(0.03, half a Hill radius) or stretch beyond 1e4 are skipped and counted; tolerances 1e-6 (reference), 2e-6 (finite differences), 1e-7*|Phi|^2 (two-form).",
             "DESIGN.md C03"),
     "C12": ("exploration",
-            "exhaustive product orbit menu x stable/unstable x direction x phase fractions x displacement x method through the real Manifold.compute; each retained seed compared with the eigenvector of a reference monodromy computed at its own base point",
+            "exhaustive product orbit menu x stable/unstable x direction x phase fractions x displacement x method through the real Manifold.compute; each retained seed compared with the eigenvector of a reference monodromy computed at its own base point; every ordered pair and (a,b,a) triple of compute() argument sets on one Manifold; orbit re-corrected in place between manifolds; energy-filter tolerance ladder",
             "For corrected halo S/N and Lyapunov orbits at L1/L2, all four (stable, direction) branches, phases k/8 (thorough k/16), displacements 1e-6 and 1e-4: the base point of each seed is located by a 1-D search along a dense reference orbit, the reference monodromy at that point is integrated independently, and the seed offset must be "
             "parallel to its eigenvector with multiplier inside/outside the unit circle (1e-3 rad + base-mismatch/displacement), of position norm = displacement; positive and negative seeds must be mirror images about the orbit; stable branches must carry non-positive decreasing times, unstable ones non-negative increasing; "
             "the reference Jacobi constant must be kept along every retained trajectory.",
             "base point = the orbit point minimising the angle (the statement allows any point of the orbit); orbits whose correction is rejected are counted, not failed.",
             "DESIGN.md C12"),
     "C14": ("model_checking",
-            "stateless model checking of the map engine's thread pool on the implementation (virtual executor: all interleavings of workers' backend calls and completion orders), plus exhaustive configuration lattice for section / energy / returns and the prange kernel under the real and a virtual scheduler",
+            "stateless model checking of the map engine's thread pool on the implementation (virtual executor: all interleavings of workers' backend calls and completion orders), plus exhaustive configuration lattice for section / energy / returns and the prange kernel under the real and a virtual scheduler; map-object histories (compute A under config c1, assign c2, compute B) over all sections and configuration pairs",
             "ThreadPoolExecutor and as_completed of the centre-manifold engine are rebound to a virtual executor (engine/vexec.py) in which every worker is a real thread holding a baton and parking in front of each backend call; the explorer enumerates every interleaving and completion order for 2 workers x 3 iterations and "
             "3 workers x 1 iteration, and preemption-bounded (1; thorough: unbounded / 2) for 3 workers x 2 iterations and 4 workers, replaying each schedule on the real engine and comparing the multiset of (state, time) rows with the serial result. Around it: section coordinate exactly 0, |H_cm-h0| <= 0.1 dt^2 on a dt ladder, points = projection "
             "of states on the labelled plane, 1/2/3/5 workers give identical multisets, for 4 sections x {fixed 4,6,8; symplectic 2,4} x seeding strategies; backend.run on explicit seeds: each returned row is the first admissible return of its seed under an independent reference flow (Newton-refined), error <= 0.1 dt^2; "
